@@ -1559,6 +1559,8 @@ def external(P, full):
     if full in ("ast", "re", "sys", "os", "json", "subprocess", "itertools", "contextlib", "inspect", "warnings", "shutil", "tempfile",
                 "os.path", "pathlib", "unicodedata", "importlib", "functools", "collections", "typing"):
         return ModuleRef(full)
+    if full in ("sys.stderr", "sys.stdout", "sys.stdin"):
+        return Opaque("lenient:" + full)
     if full in ("subprocess.DEVNULL", "subprocess.PIPE", "subprocess.STDOUT"):
         return Opaque("lenient:" + full)
     if full in ("pathlib.Path", "pathlib.PurePath"):
